@@ -4,22 +4,37 @@ from props import tokcommon as tc
 PROP = "C04"
 ENGINE = "tok+xmltok+total"
 USES_TRANSLATOR = True
-LEAN_TARGETS = ["H5V.Props.C04"]
-AUDIT_IMPORTS = ["H5V.Props.C04"]
+LEAN_TARGETS = ["H5V.Props.C04", "H5V.Props.C04Term", "H5V.Props.C04Xml"]
+AUDIT_IMPORTS = ["H5V.Props.C04", "H5V.Props.C04Term", "H5V.Props.C04Xml"]
 THEOREMS = ["H5V.Props.C04." + t for t in [
-    "C04_tok_initial_safe", "C04_tok_no_panic", "C04_tok_run_no_panic", "C04_tok_feed_drains", "C04_tok_eof_is_last"]] + [
-    "H5V.Model.HtmlTok." + t for t in ["step_safe", "crStep_safe", "entityLookup_valid", "numericValue_ok"]]
+    "C04_tok_initial_safe", "C04_tok_no_panic", "C04_tok_run_no_panic", "C04_tok_feed_drains", "C04_tok_eof_is_last",
+    # termination (Props/C04Term.lean)
+    "C04_tok_step_decreases", "C04_tok_step_keeps_invariant", "C04_tok_measure_below_fuel", "C04_tok_run_terminates",
+    "C04_tok_run_terminates_fuelFor", "C04_tok_fuel_irrelevant", "C04_tok_fuelFor_is_enough", "C04_tok_initial_inv",
+    "C04_tok_feed_terminates", "C04_tok_feed_keeps_invariant", "C04_tok_session_feed_terminates", "C04_tok_eof_loop_total",
+    "C04_tok_suspend_drains", "C04_tok_finish_total", "C04_tok_finish_pause_witness"]] + [
+    "H5V.Model.HtmlTok." + t for t in ["step_safe", "crStep_safe", "entityLookup_valid", "numericValue_ok",
+                                       "step_dec", "step_tinv", "transChar_base", "crStep_term", "lookup_runCh"]] + [
+    # xml5ever tokenizer (Props/C04Xml.lean)
+    "H5V.Props.C04X." + t for t in [
+    "C04_xml_initial_safe", "C04_xml_no_panic", "C04_xml_run_no_panic", "C04_xml_runsTo_safe", "C04_xml_feed_no_panic",
+    "C04_xml_session_no_panic", "C04_xml_feed_drains", "C04_xml_run_drains", "C04_xml_feed_fn_drains",
+    "C04_xml_initial_good", "C04_xml_eof_loop_total", "C04_xml_finish_no_panic_partial", "C04_xml_eof_is_last",
+    "C04_xml_finish_eof_is_last"]] + ["H5V.Model.XmlTok." + t for t in ["step_safe", "crStep_safe"]]
 TRUSTED = [
     "Lean 4 kernel; axioms ⊆ {propext, Classical.choice, Quot.sound} (audited per run)",
     "tokenizer model lean/H5V/Model/HtmlTok.lean: every assert!/unwrap/expect/panic!/index/from_u32 of tokenizer/mod.rs and "
     "char_ref/mod.rs is an explicit panic branch; tied to the Rust by the tok correspondence (a Rust panic is reported as PANIC)",
-    "kernel-checked table facts (every named-reference value is a Unicode scalar value) regenerated from entities.rs",
+    "XML tokenizer model lean/H5V/Model/XmlTok.lean (xml5ever/src/tokenizer/{mod.rs,char_ref/mod.rs}), same convention, tied "
+    "by the xmltok correspondence",
+    "kernel-checked table facts regenerated from entities.rs (every named-reference value is a Unicode scalar value; every "
+    "character of every name is alphanumeric or ';' — the latter bounds how often text can travel through name_buf)",
     "runtime part (not provable in a model): harness runs every case under catch_unwind; shards that abort or hang are "
     "bisected to the single case by tools/vlib.py (ABORT/timeout); 10^5-deep nesting and 10^5..10^6-character inputs",
 ]
 ASSUMPTIONS = [
-    "C04_partial: fuel bound of the tokenizer loop, totality of the HTML/XML tree builders and of the XML tokenizer are not "
-    "proved; they are exercised: no PANIC/ABORT/HANG on any case of any engine in this run, queue drained after every feed, "
+    "C04_partial: totality of the HTML/XML tree builders and a fuel bound for the XML tokenizer's run loop are not proved; "
+    "they are exercised: no PANIC/ABORT/HANG on any case of any engine in this run, queue drained after every feed, "
     "exactly one EOF delivered last",
     "the sink is contract-abiding (RcDom / the recording sink of the harness)",
 ]
@@ -30,7 +45,7 @@ RULE = ("(1) every case of the HTML tokenizer cover (73 start states × 41 chara
         "block, table parts, template, select, svg/math, unclosed comments, attribute floods, character-reference floods) "
         "under chunk sizes 0/1/7/4096 and option sets. non-trivial = input longer than 8 characters or started in a non-data "
         "state; distinct = distinct (case, output)")
-EXPLANATION = "no-panic invariant proved for the HTML tokenizer model; everything else of C04 is exercised at runtime with a watchdog"
+EXPLANATION = ("HTML tokenizer model: no panic, termination within fuelFor (strictly decreasing measure), feed drains, end() total with EOF last; XML tokenizer model: no panic, feed drains, eof loop total, EOF last; tree builders and real stack/time are exercised at runtime with a watchdog")
 
 STRESS = ["<", "&", "&a", "&#", "&#x", "<!", "<!-", "<!--", "--", "<a ", "<a b=", "<a b='", "</", "<![CDATA[", "]]", "\r", "\r\n",
           "\0", "<script>", "</script", "<!DOCTYPE", " PUBLIC", "'", "\"", "=", "/", "&amp", "&notit;", "é", "\U0001F600", "<p>", "</p>"]
